@@ -9,6 +9,7 @@ from vx.run import Unit
 from vx import census as _mcq_census
 
 MCQ = "libs/pika/concurrency/include/pika/concurrency/concurrentqueue.hpp"
+MCQ_IMPLICIT = r"struct ImplicitProducer : public ProducerBase"
 
 
 class McqCall0(Call):
@@ -100,6 +101,80 @@ class McqLocalDtorStruct(Rule):
         return text
 
 
+
+class McqTryCatch(Rule):
+    """`try { A } catch (...) { B }`  ->  `{ { A' } vx_try_end_k: ; if (vx_exc) { vx_catch(); B } }` where A' is A with every
+    VX_PROPAGATE (emitted after may-throw calls) turned into a jump to the handler (single catch-all clause; the pattern of
+    specs/C13 TryCatchMulti)."""
+
+    def __init__(self, n=None):
+        self.n = n
+
+    def apply(self, text):
+        k = 0
+        while True:
+            m = _mcq_re.search(r"\btry\s*\{", text)
+            if not m:
+                break
+            k += 1
+            op = m.end() - 1
+            cl = match_close(text, op, "{", "}")
+            mc = _mcq_re.match(r"\s*catch\s*\(\s*\.\.\.\s*\)\s*\{", text[cl + 1:])
+            if not mc:
+                raise LiftError("McqTryCatch: try without catch (...)")
+            cop = cl + 1 + mc.end() - 1
+            ccl = match_close(text, cop, "{", "}")
+            A = text[op + 1:cl].replace("VX_PROPAGATE", "goto vx_try_end_%d" % k)
+            B = text[cop + 1:ccl]
+            text = text[:m.start()] + "{ { %s } vx_try_end_%d: ; if (vx_exc) { vx_catch(); %s } }" % (A, k, B) + text[ccl + 1:]
+        self.check(k, "McqTryCatch")
+        return text
+
+
+
+class McqCanonLocals(Rule):
+    """loop contracts have to name locals of the lifted text; a refactoring that merely renames a local must not make the
+    unit undecided.  Each (regex, canonical) pair finds a local by the SHAPE of its declaration (group 1 = its name) and
+    renames it to the canonical name used in the contracts; a shape that is not found is left alone."""
+
+    def __init__(self, pairs):
+        self.pairs, self.n = pairs, None
+
+    def apply(self, text):
+        for pat, canon in self.pairs:
+            names = set(_mcq_re.findall(pat, text))
+            if len(names) == 1:
+                nm = names.pop()
+                if nm != canon and not _mcq_re.search(r"\b%s\b" % canon, text):
+                    text = _mcq_re.sub(r"(?<![\w.>])%s\b" % _mcq_re.escape(nm), canon, text)
+        return text
+
+
+
+class McqScopedLift(Lift):
+    """Lift whose locator is evaluated inside the body of one class only (`scope` = regex matching the class head, e.g.
+    `struct ImplicitProducer : public ProducerBase`): the same member signature occurs in several classes of the header."""
+
+    def __init__(self, src, scope, locate_pat, **kw):
+        Lift.__init__(self, src, locate_pat, **kw)
+        self.scope = scope
+
+    def run(self):
+        from vx.lift import read_source
+        src = read_source(self.src)
+        ms = list(_mcq_re.finditer(self.scope, src, _mcq_re.S))
+        if len(ms) != 1:
+            raise LiftError("scope /%s/ matched %d times in %s" % (self.scope, len(ms), self.src))
+        op = src.index("{", ms[0].end())
+        cl = match_close(src, op, "{", "}")
+        allm = list(_mcq_re.finditer(self.locate, src, _mcq_re.S))
+        inside = [i for i, m in enumerate(allm) if op < m.start() < cl]
+        if len(inside) != 1:
+            raise LiftError("locator /%s/ matched %d times inside scope /%s/" % (self.locate, len(inside), self.scope))
+        self.which, self.expect = inside[0], len(allm)
+        return Lift.run(self)
+
+
 # ---- C++ spelling -> C spelling; every rule captures its operands ----------------------------------------------------
 MCQ_WORDS = [
     # BlockIndexEntry::value (std::atomic<Block*>) first, so that the bare-member rules below do not see `value.load`
@@ -114,14 +189,14 @@ MCQ_WORDS = [
     Sub(r"\bstd::atomic_thread_fence\b", "mcq_fence", None),
 ]
 MCQ_SLOTS = [
-    Sub(r"\(\*(\w+)\)\[([^\]\[]+)\]", r"block_slot(\1, \2)", None),                       # (*block)[index]  (Block::operator[])
+    Sub(r"\(\*((?:this->)?\w+)\)\[([^\]\[]+)\]", r"block_slot(\1, \2)", None),           # (*block)[index]  (Block::operator[])
     Sub(r"(\bblock_slot\([^()]*\))->~T\(\)", r"elem_destroy(\1)", None),
     Sub(r"\b(\w+)\.~T\(\)", r"elem_destroy(&\1)", None),
 ]
 MCQ_CLT = Lift(MCQ, r"static inline bool circular_less_than\(T a, T b\)", rules=[
     DropStmt(r"\bstatic_assert", None), Sub(r"\bT\b", "index_t", "+")])
 
-DEQ_RULES = [
+MCQ_DEQ_RULES = [
     McqLocalDtorStruct(None),
     Call(r"\bMOODYCAMEL_NOEXCEPT_ASSIGN", "MCQ_NOEXCEPT_ASSIGN", None),
 ] + MCQ_SLOTS + [
@@ -134,21 +209,246 @@ DEQ_RULES = [
     Sub(r"\bthis->", "self->", None),
 ]
 
-_F = MCQ + ": "
-MCQ_UNITS = [
-    Unit("mcq.circular_less_than", "../C17/mcq_dequeue.c", defines=["U_CLT"], enforce="clt_unit", lifts={"clt": MCQ_CLT},
-         funcs=[_F + "detail::circular_less_than<index_t>"], min_obligations=1,
-         doc="F: the lifted function equals 'b is ahead of a by 1 .. 2^63-1 modulo 2^64' on all pairs of 64-bit words"),
-    Unit("mcq.dequeue", "../C17/mcq_dequeue.c", defines=["U_DEQUEUE"], enforce="dequeue",
-         lifts={"clt": MCQ_CLT,
-                "dequeue": Lift(MCQ, r"bool dequeue\(U& element\)", which=2, expect=3, rules=DEQ_RULES, loops={"count": 0})},
-         funcs=[_F + "ConcurrentQueue::ImplicitProducer::dequeue, detail::circular_less_than"], min_obligations=40, solver=["--sat-solver", "cadical"],
-         doc="S/T on tailIndex/headIndex/dequeueOptimisticCount/dequeueOvercommit with interference before every atomic access"),
-    Unit("mcq.size_approx", "../C17/mcq_dequeue.c", defines=["U_SIZE_APPROX"], enforce="size_approx",
-         lifts={"clt": MCQ_CLT,
-                "size_approx": Lift(MCQ, r"inline size_t size_approx\(\) const(?=\s*\{\s*auto tail)", rules=MCQ_WORDS, loops={"count": 0})},
-         funcs=[_F + "ConcurrentQueue::ProducerBase::size_approx"], min_obligations=5),
+def mcq_dequeue_lifts():
+    return {"clt": MCQ_CLT,
+            "dequeue": McqScopedLift(MCQ, MCQ_IMPLICIT, r"bool dequeue\(U& element\)", rules=MCQ_DEQ_RULES, loops={"count": 0})}
+
+
+def _mcq_traits():
+    """BLOCK_SIZE / MAX_SUBQUEUE_SIZE of ConcurrentQueueDefaultTraits (pika instantiates ConcurrentQueue<T> with the default
+    traits) become -D parameters of the enqueue template: an edit of the constants comes along"""
+    from vx.lift import read_source
+    try:
+        src = read_source(MCQ)
+    except LiftError:
+        return []
+    out = []
+    for nm in ("BLOCK_SIZE", "MAX_SUBQUEUE_SIZE"):
+        m = _mcq_re.search(r"static size_t const %s\s*=\s*([^;]+);" % nm, src)
+        if m:
+            v = m.group(1).strip().replace("detail::const_numeric_max<size_t>::value", "SIZE_MAX")
+            out.append("TRAITS_%s=(%s)" % (nm, v))
+    return out
+
+
+MCQ_ENQ_RULES = [
+    Call(r"\bMOODYCAMEL_NOEXCEPT_CTOR", "MCQ_NOEXCEPT_CTOR", None),
+    Sub(r"\bMOODYCAMEL_CONSTEXPR_IF\b", "if", None),
+    Sub(r"\bMOODYCAMEL_TRY\b", "try", None),
+    Sub(r"\bMOODYCAMEL_CATCH\b", "catch", None),
+    Sub(r"\bMOODYCAMEL_RETHROW\s*;", "{ vx_rethrow(); VX_PROPAGATE; }", None),
+] + MCQ_SLOTS + [
+    # placement new of the payload: may throw
+    Sub(r"\bnew\s*\((block_slot\([^()]*\))\)\s*T\s*\(\s*std::forward<U>\((\w+)\)\s*\)\s*;",
+        r"{ elem_construct(\1, \2); if (vx_exc) VX_PROPAGATE; }", "+"),
+    McqTryCatch(None),
+    Sub(r"\bVX_PROPAGATE\b", "return false", None),
+    Call(r"\bassert", "MCQ_ASSERT({args})", None),
+    Sub(r"\bBlockIndexEntry\s*\*\s*(\w+)\s*;", r"struct bientry *\1;", None),
+    Call(r"\binsert_block_index_entry\s*<\s*allocMode\s*>", "insert_block_index_entry(self, &{0}, {1})", None),   # BlockIndexEntry*& out-parameter
+    Call(r"\bthis->parent->ConcurrentQueue::template\s+requisition_block\s*<\s*allocMode\s*>", "requisition_block(this->parent)", None),
+    Call(r"\b(\w+)->ConcurrentQueue::Block::template\s+reset_empty\s*<\s*implicit_context\s*>", "block_reset_empty({h1})", None),
+    McqCall0(r"\brewind_block_index_tail(?!\s*\(\s*self\b)", "rewind_block_index_tail(self)"),
+    Call(r"(?<![\w>.])((?:this->)?\w+)->add_block_to_free_list", "add_block_to_free_list({h1}, {0})", None),
+    Sub(r"\bdetail::const_numeric_max<size_t>::value", "SIZE_MAX", None),
+] + MCQ_WORDS + [
+    Sub(r"\bthis->", "self->", None),
 ]
 
-MCQ_META = {"trusted_base": [], "assumptions": [], "not_decided": []}
-MCQ_STATIC = []
+# ---- ConcurrentQueue::try_dequeue: producers as handles into a stub list; callee contracts as stubs ----
+MCQ_TD_RULES = [
+    Sub(r"\bnullptr\b", "PROD_NULL", None),
+    Sub(r"\bProducerBase\s*\*\s*(\w+)\s*=", r"prod_h \1 =", None),
+    Call(r"(?<![\w>.])producerListTail\.load", "producer_list_tail_load(self)", None),
+    Call(r"\b(\w+)->next_prod", "prod_next({h1})", None),
+    Call(r"\b(\w+)->size_approx", "prod_size_approx({h1})", None),
+    Call(r"\b(\w+)->dequeue", "prod_dequeue({h1}, {0})", None),
+    Sub(r"\(detail::likely\)", "", None),
+]
+MCQ_TD_BASE = list(MCQ_TD_RULES)
+MCQ_TD_RULES = MCQ_TD_BASE + [
+    McqCanonLocals([
+        (r"\bprod_h\s+(\w+)\s*=\s*PROD_NULL\s*;", "best"),                                # the one producer handle declared outside the loops
+        (r"\bfor\s*\(\s*auto\s+(\w+)\s*=\s*producer_list_tail_load", "ptr"),            # the cursor of both loops
+        (r"(?:\+\+\s*(\w+)\s*;)", "nonEmptyCount"),                                     # the one counter that is incremented
+        (r"\bsize_t\s+(?!nonEmptyCount\b)(\w+)\s*=\s*0\s*;", "bestSize"),                # the other size_t local
+    ]),
+]
+MCQ_TD_LOOP_SCAN = """
+__CPROVER_assigns(ptr, nonEmptyCount, best, bestSize, X)
+__CPROVER_loop_invariant((ptr == PROD_NULL || VALID(ptr)) && nonEmptyCount <= 3)
+__CPROVER_loop_invariant((nonEmptyCount > 0 ==> VALID(best)) && (nonEmptyCount == 0 ==> bestSize == 0))
+__CPROVER_loop_invariant((nonEmptyCount > 0) == X.saw_nonempty)
+__CPROVER_loop_invariant(X.attempts == 0 && X.successes == 0 && X.v_attempts == 0 && X.winner == PROD_NULL)
+__CPROVER_loop_invariant((nonEmptyCount > 0 && best == K.v) ==> X.v_seen_nonempty)
+__CPROVER_loop_invariant((MCQ_QUIESCENT && VALID(K.v) && K.vsize > 0 && K.v < POS(ptr)) ==> nonEmptyCount > 0)
+"""
+MCQ_TD_LOOP_TRY = """
+__CPROVER_assigns(ptr, X, *item)
+__CPROVER_loop_invariant(ptr == PROD_NULL || VALID(ptr))
+__CPROVER_loop_invariant(X.successes == 0 && X.winner == PROD_NULL && X.attempts >= 1 && X.v_attempts >= 0)
+__CPROVER_loop_invariant(*item == __CPROVER_loop_entry(*item) && X.saw_nonempty == __CPROVER_loop_entry(X.saw_nonempty))
+__CPROVER_loop_invariant((VALID(K.v) && (K.v < POS(ptr) || K.v == best)) ==> X.v_attempts >= 1)
+__CPROVER_loop_invariant((MCQ_QUIESCENT && VALID(K.v) && K.vsize > 0) ==> X.v_attempts == 0)
+"""
+
+
+MCQ_TD_LOOP_SUM = """
+__CPROVER_assigns(ptr, size, X, g_sum)
+__CPROVER_loop_invariant((ptr == PROD_NULL || VALID(ptr)) && size == g_sum && g_sum <= ((size_t) 1 << 60))
+__CPROVER_loop_invariant(X.v_attempts == ((VALID(K.v) && K.v < POS(ptr)) ? 1 : 0))
+__CPROVER_loop_invariant((MCQ_QUIESCENT && VALID(K.v) && K.v < POS(ptr)) ==> g_sum >= K.vsize)
+"""
+MCQ_FWD_RULES = [
+    Sub(r"\bMOODYCAMEL_CONSTEXPR_IF\b", "if", None),
+    Call(r"\binner_enqueue\s*<\s*(\w+)\s*>", "inner_enqueue(self, {h1}, {0})", None),
+    Call(r"(?<![\w>.])get_or_add_implicit_producer(?!\s*\(\s*self\b)", "get_or_add_implicit_producer(self)", None),
+    Call(r"\b(\w+)->ConcurrentQueue::ImplicitProducer::template\s+enqueue\s*<\s*(\w+)\s*>", "prod_enqueue({h1}, {h2}, {0})", None),
+    Call(r"\bstd::forward\s*<\s*U\s*>", "({0})", None),
+    Sub(r"\bnullptr\b", "PROD_NULL", None),
+]
+
+
+def _mcq_hash_size():
+    from vx.lift import read_source
+    try:
+        m = _mcq_re.search(r"static size_t const INITIAL_IMPLICIT_PRODUCER_HASH_SIZE\s*=\s*([^;]+);", read_source(MCQ))
+    except LiftError:
+        m = None
+    return ["TRAITS_INITIAL_IMPLICIT_PRODUCER_HASH_SIZE=(%s)" % m.group(1).strip()] if m else []
+
+
+def mcq_td_lifts():
+    return {"try_dequeue": Lift(MCQ, r"bool try_dequeue\(U& item\)", rules=MCQ_TD_RULES,
+                                loops={1: MCQ_TD_LOOP_SCAN, 2: MCQ_TD_LOOP_TRY, "count": 2})}
+
+
+def mcq_size_lifts():
+    return {"clt": MCQ_CLT,
+            "size_approx": McqScopedLift(MCQ, r"struct ProducerBase : public detail::ConcurrentQueueProducerTypelessBase",
+                                         r"inline size_t size_approx\(\) const", rules=MCQ_WORDS, loops={"count": 0})}
+
+
+_MCQ_F = MCQ + ": "
+MCQ_UNITS = [
+    Unit("mcq.circular_less_than", "../C17/mcq_dequeue.c", defines=["U_CLT"], enforce="clt_unit", lifts={"clt": MCQ_CLT},
+         funcs=[_MCQ_F + "detail::circular_less_than<index_t>"], min_obligations=1,
+         doc="F: the lifted function equals 'b is ahead of a by 1 .. 2^63-1 modulo 2^64' on all pairs of 64-bit words"),
+    Unit("mcq.dequeue", "../C17/mcq_dequeue.c", defines=["U_DEQUEUE"], enforce="dequeue", lifts=mcq_dequeue_lifts(),
+         funcs=[_MCQ_F + "ConcurrentQueue::ImplicitProducer::dequeue, detail::circular_less_than"], min_obligations=150,
+         solver=["--sat-solver", "cadical"],
+         doc="S/T on tailIndex/headIndex/dequeueOptimisticCount/dequeueOvercommit with interference before every atomic access"),
+    Unit("mcq.dequeue.quiescent", "../C17/mcq_dequeue.c", defines=["U_DEQUEUE", "MCQ_QUIESCENT=1"], enforce="dequeue",
+         lifts=mcq_dequeue_lifts(), funcs=[_MCQ_F + "ConcurrentQueue::ImplicitProducer::dequeue, detail::circular_less_than"],
+         min_obligations=150, solver=["--sat-solver", "cadical"],
+         doc="same contract, no other thread running: a dequeue on a non-empty sub-queue succeeds and takes the element at head"),
+    Unit("mcq.size_approx", "../C17/mcq_dequeue.c", defines=["U_SIZE_APPROX"], enforce="size_approx", lifts=mcq_size_lifts(),
+         funcs=[_MCQ_F + "ConcurrentQueue::ProducerBase::size_approx"], min_obligations=30,
+         doc="never more than tail(read) - head(at entry); 0 when head has caught up"),
+    Unit("mcq.size_approx.quiescent", "../C17/mcq_dequeue.c", defines=["U_SIZE_APPROX", "MCQ_QUIESCENT=1"], enforce="size_approx",
+         lifts=mcq_size_lifts(), funcs=[_MCQ_F + "ConcurrentQueue::ProducerBase::size_approx"], min_obligations=30,
+         doc="no other thread running: exactly tail - head"),
+    Unit("mcq.enqueue", "../C17/mcq_enqueue.c", defines=_mcq_traits(), enforce="enqueue",
+         lifts={"clt": MCQ_CLT,
+                "enqueue": McqScopedLift(MCQ, MCQ_IMPLICIT, r"inline bool enqueue\(U&& element\)", rules=MCQ_ENQ_RULES, loops={"count": 0})},
+         funcs=[_MCQ_F + "ConcurrentQueue::ImplicitProducer::enqueue<allocMode, U>"], min_obligations=60,
+         doc="T: the element is constructed in the slot at index tail exactly once, BEFORE tailIndex := tail + 1 is published (once); "
+             "on failure or an exception from T's constructor nothing is published and the block/index entry are given back"),
+    Unit("mcq.try_dequeue", "../C17/mcq_try_dequeue.c", defines=["U_TRY_DEQUEUE"], enforce="try_dequeue", lifts=mcq_td_lifts(),
+         funcs=[_MCQ_F + "ConcurrentQueue::try_dequeue(U&)"], min_obligations=60,
+         doc="T: tries producers until one dequeue succeeds; true iff one did (exactly one); the element reference is passed through; "
+             "false with a producer that looked non-empty only after every producer was tried"),
+    Unit("mcq.try_dequeue.quiescent", "../C17/mcq_try_dequeue.c", defines=["U_TRY_DEQUEUE", "MCQ_QUIESCENT=1"], enforce="try_dequeue", lifts=mcq_td_lifts(),
+         funcs=[_MCQ_F + "ConcurrentQueue::try_dequeue(U&)"], min_obligations=60,
+         doc="no other thread running: if some producer of the list is non-empty the call succeeds"),
+    Unit("mcq.lemma.steps", "../C17/mcq_lemma.c", kind="lemma", loop_contracts=False, no_replay=True, funcs=[], min_obligations=10,
+         solver=["--sat-solver", "cadical"],
+         doc="rely of mcq.dequeue justified: every transition (ticket / claim / register by another consumer, publish by the producer), "
+             "performed with the MCQ_DO_* macros the atomic stubs use, keeps MCQ_INV and the observer's per-thread invariant; "
+             "hypotheses: inclusions between the ticket sets the ghost counts stand for (PAIR), A-BOUNDED margins"),
+    Unit("mcq.queue_size_approx", "../C17/mcq_try_dequeue.c", defines=["U_SIZE_SUM", "MCQ_QUIESCENT=1"], enforce="size_approx",
+         lifts={"size_sum": Lift(MCQ, r"(?<!inline )size_t size_approx\(\) const",
+                                 rules=MCQ_TD_BASE + [McqCanonLocals([(r"\bsize_t\s+(\w+)\s*=\s*0\s*;", "size"),
+                                                                   (r"\bfor\s*\(\s*auto\s+(\w+)\s*=\s*producer_list_tail_load", "ptr")])],
+                                 loops={1: MCQ_TD_LOOP_SUM, "count": 1})},
+         funcs=[_MCQ_F + "ConcurrentQueue::size_approx"], min_obligations=30,
+         doc="sum of the producers' size_approx, each producer asked once; quiescent: a non-empty producer => result > 0 "
+             "(lockfree_fifo_backend::empty() is size_approx() == 0)"),
+    Unit("mcq.enqueue_forwarders", "../C17/mcq_try_dequeue.c", defines=["U_INNER_ENQUEUE"] + _mcq_hash_size(), enforce="inner_enqueue",
+         lifts={"inner_enqueue": Lift(MCQ, r"inline bool inner_enqueue\(U&& element\)", rules=MCQ_FWD_RULES, loops={"count": 0}),
+                "enqueue_copy": Lift(MCQ, r"inline bool enqueue\(T const& item\)", rules=MCQ_FWD_RULES, loops={"count": 0}),
+                "enqueue_move": Lift(MCQ, r"inline bool enqueue\(T&& item\)", rules=MCQ_FWD_RULES, loops={"count": 0})},
+         funcs=[_MCQ_F + "ConcurrentQueue::enqueue(T const&), enqueue(T&&), inner_enqueue<canAlloc>(U&&)"], min_obligations=10,
+         doc="T: one lookup of the calling thread's implicit producer, one enqueue<CanAlloc> on it with the item; false iff no producer or that enqueue failed"),
+]
+
+MCQ_META = {
+    "trusted_base": [
+        "specs/C17/mcq_dequeue.c idx_load/idx_fetch_add, mcq_enqueue.c idx_load/idx_store: the std::atomic<index_t> members tailIndex, headIndex, "
+        "dequeueOptimisticCount, dequeueOvercommit of ProducerBase modelled as indivisible 64-bit words (A-SC: memory orders dropped; "
+        "std::atomic_thread_fence is a no-op stub); each stub runs the environment first, performs the access, does the ghost bookkeeping of "
+        "the step (MCQ_DO_* of mcq.h) and asserts the guarantee",
+        "specs/C17/mcq_dequeue.c mcq_interfere() = the RELY of a consumer (VX_ASSUME): headIndex and dequeueOvercommit grow by less than 2^60 "
+        "during one call (A-BOUNDED), tailIndex is never behind a value read from it, MCQ_INV (C - O == H + U; H + Ub <= T; Ub <= U; "
+        "T - H < 2^60) and this thread's MCQ_ME (while undecided and above every claimed ticket: t - o == H + Ubm + D, Ub <= Ubm < U; otherwise "
+        "Ub >= 1) hold again; the ghost counts U, Ub, Ubm, D are existential.  Justified by unit mcq.lemma.steps (every transition of another "
+        "thread keeps them) whose own hypotheses are the set inclusions PAIR between the ghost counts of two threads and A-BOUNDED margins",
+        "specs/C17/mcq_enqueue.c mcq_interfere() = the RELY of the producer (VX_ASSUME dH <= T - H): only consumers advance headIndex and "
+        "never past tailIndex (guarantee asserted in mcq.dequeue: 'the claimed index lies before tail'); nobody else writes tailIndex "
+        "(one implicit producer per thread: get_or_add_implicit_producer hashes the thread id -- that function is NOT under contract)",
+        "block index / blocks / block free list are STUBS over one symbolic victim slot: get_block_index_entry_for_index, "
+        "BlockIndexEntry::value load/store, Block::operator[], Block::set_empty<implicit_context>, Block::reset_empty<implicit_context>, "
+        "insert_block_index_entry, rewind_block_index_tail, requisition_block, add_block_to_free_list, ~T / placement new of T; the stubs "
+        "count calls and assert the order of the steps (slot read before destroyed, destroyed before marked empty, index entry cleared "
+        "before the block is recycled; new block reset, element constructed and index entry set before tail is published).  Rely on "
+        "slots: a slot at a claimed index is not written by anybody else until its claimer marks it empty",
+        "mcq_try_dequeue.c: the producer list is a stub (handles 0..n-1 in list order, n symbolic < 10^6); ProducerBase::size_approx / dequeue are "
+        "contract stubs (any result; for ONE symbolic victim producer in the quiescent instances: true size / succeeds iff non-empty -- the "
+        "contracts proved by mcq.size_approx.quiescent and mcq.dequeue.quiescent); ProducerBase::dequeue's isExplicit dispatch is not lifted; "
+        "VX_ASSUME in prod_size_approx_sum: all sizes together < 2^60 (A-BOUNDED, no wrap-around of the sum)",
+        "payload T is an opaque int token; MOODYCAMEL_NOEXCEPT_ASSIGN / MOODYCAMEL_NOEXCEPT_CTOR are nondeterministic configuration bits "
+        "(both branches verified); an exception from T's constructor is the flag vx_exc + early return; an exception from T's move "
+        "assignment inside dequeue (Guard path) is not modelled",
+        "local guard class `struct Guard {...} guard = {...}` of dequeue lowered to locals + destructor body at scope exit "
+        "(McqLocalDtorStruct in mcq_spec.py); `auto& el` lowered to a pointer (McqRefVar); try/catch(...) lowered by McqTryCatch",
+    ],
+    "assumptions": [
+        "A-BOUNDED (mcq units): fewer than 2^60 elements in a sub-queue, fewer than 2^60 consumers in flight, fewer than 2^60 steps of other "
+        "threads while one call runs (circular_less_than itself is only meaningful for distances < 2^63); the absolute values of the four "
+        "index words are arbitrary and wrap modulo 2^64",
+        "A-CLOSED(mcq): for an implicit producer the four index words are written only by ImplicitProducer::enqueue / dequeue (under contract) "
+        "and enqueue_bulk / dequeue_bulk (NOT under contract; pika never calls the bulk or token API: static facts 'mcq: pika uses only "
+        "enqueue/try_dequeue/size_approx' and the write-site census of concurrentqueue.hpp)",
+        "PAIR (hypothesis of mcq.lemma.steps): the ghost counts are cardinalities of ticket sets; for two undecided tickets x < y: "
+        "{undecided below x} + {x} is contained in {undecided below y}, a claimed ticket above y is above x, and x, y are distinct members of "
+        "the undecided set (of the Ub set when both are below the largest claimed ticket) -- set facts, not machine checked",
+    ],
+    "not_decided": [
+        "moodycamel ConcurrentQueue beyond the implicit single-element path: ExplicitProducer (tokens), enqueue_bulk / dequeue_bulk / try_dequeue_bulk, "
+        "consumer tokens and the rotation heuristic, get_or_add_implicit_producer and the implicit-producer hash (incl. its resizing and thread-exit "
+        "recycling of producers), block index growth (new_block_index, insert_block_index_entry), the block pool / lock-free block free list "
+        "(requisition_block, add_block_to_free_list, FreeList), Block::set_empty / reset_empty flag handling, destructors",
+        "that a block is not recycled while a slow consumer still reads a slot of it is assumed at the stub level (slot rely above); the "
+        "emptiness-flag protocol of Block that implements it is not under contract",
+        "FIFO order per producer in single-threaded use follows from 'claims hand out head, head+1, ...' (mcq.dequeue.quiescent: the claimed index "
+        "is head) and 'enqueue stores at tail' (mcq.enqueue); order ACROSS producers is not promised by try_dequeue (it picks the producer that "
+        "looks fullest) and is not checked",
+        "memory orders (relaxed/acquire/release and the acquire fence in dequeue): all atomics are sequentially consistent here (A-SC)",
+        "linearizability of the whole queue under arbitrary concurrency: decided are the step contracts, the invariant-preservation lemma over "
+        "two symbolic threads, and the quiescent behaviour; the induction over the interleaved history is the paper argument of DESIGN 3.4",
+    ],
+}
+MCQ_USERS = ["libs/pika/schedulers/include/pika/schedulers/lockfree_queue_backends.hpp", "libs/pika/async_cuda/src/cuda_event_callback.cpp",
+             "libs/pika/async_mpi/src/mpi_polling.cpp"]
+MCQ_STATIC = [
+    _mcq_census.sites("mcq: pika uses only enqueue/try_dequeue/size_approx of ConcurrentQueue (no bulk, no tokens)", MCQ_USERS,
+                      r"\b(enqueue_bulk|try_enqueue\w*|try_dequeue_\w+|ProducerToken|ConsumerToken|producer_token_t|consumer_token_t)\b", 0),
+    _mcq_census.sites("mcq: tailIndex write sites (2 x enqueue + enqueue_bulk, explicit and implicit)", [MCQ],
+                      r"\btailIndex\.(fetch_add|fetch_sub|store|exchange|compare_exchange\w*)", 6),
+    _mcq_census.sites("mcq: headIndex write sites (dequeue + dequeue_bulk, explicit and implicit)", [MCQ],
+                      r"\bheadIndex\.(fetch_add|fetch_sub|store|exchange|compare_exchange\w*)", 4),
+    _mcq_census.sites("mcq: dequeueOptimisticCount write sites", [MCQ],
+                      r"\bdequeueOptimisticCount\.(fetch_add|fetch_sub|store|exchange|compare_exchange\w*)", 4),
+    _mcq_census.sites("mcq: dequeueOvercommit write sites", [MCQ],
+                      r"\bdequeueOvercommit\.(fetch_add|fetch_sub|store|exchange|compare_exchange\w*)", 6),
+]
